@@ -557,6 +557,15 @@ func (m Migrator) MigrateColumn(value interface{}, field *schema.Field, columnTy
 				if alterColumn && field.DefaultValueInterface != nil {
 					alterColumn = dv != fmt.Sprint(field.DefaultValueInterface)
 				}
+				// nor does a reported default that is the same number in another notation (the DDL
+				// prints floats in plain decimal form: 2.5e-07 -> 0.00000025)
+				if alterColumn {
+					if want, ok := field.DefaultValueInterface.(float64); ok {
+						if got, err := strconv.ParseFloat(dv, 64); err == nil && got == want {
+							alterColumn = false
+						}
+					}
+				}
 			default:
 				alterColumn = dv != field.DefaultValue
 			}
